@@ -100,7 +100,8 @@ def families : List Family := [
   ⟨"cubic", cubic (α := Float32), cubic (α := Float)⟩,
   ⟨"arc", arc (α := Float32), arc (α := Float)⟩,
   -- verified exact checker on lyon's own output (CHECK lines; Props/C09c.lean)
-  Family.plain "chk_flat" FlatChkIO.handle ]
+  Family.plain "chk_flat" FlatChkIO.handle,
+  Family.plain "chk_arc" FlatChkIO.Arc.handle ]
 
 end Lyon.Drive.C09
 
